@@ -11,8 +11,9 @@ SHAPES = [
     (9, "link_1", 3, 2), (10, "link_o_1", 3, 2), (11, "link_2", 5, 4), (12, "link_o_2", 5, 4),
     (13, "link_o_c+o", 3, 2), (14, "c_asm", 1, 0),
     (15, "c_o_2_rejected", 0, 0), (16, "S_o_2_rejected", 0, 0), (17, "c_asm+c", 3, 1),
+    (18, "link_c+asm", 4, 3), (19, "E_asm", 1, 0), (20, "S_asm", 0, 0),
 ]
-QUICK = {1, 2, 4, 5, 7, 8, 10, 12, 13, 14, 15, 17}
+QUICK = {1, 2, 4, 5, 7, 8, 10, 12, 13, 14, 15, 17, 18, 19}
 
 
 def main(tier, only=None):
@@ -24,7 +25,7 @@ def main(tier, only=None):
         "(exit code 1..255 or killed by signal 1..126, core bit arbitrary) or k-th mkstemp failing"
         % (len(SHAPES) if tier != "quick" else len(QUICK), "" if tier != "quick" else " (quick subset)"),
         "cc1: -cc1 mode for `-c`, `-S -o`, `-E -o`, `-E`; failing phase symbolic over {unreadable input, tokenize, "
-        "preprocess, parse, codegen}; fopen of the output may fail",
+        "preprocess, parse, codegen}; fopen of the output may fail; a write error on the output stream (ferror/fflush/fclose) may happen",
     ]
     chk.assumptions += [
         "fork/execvp/wait modelled sequentially: the child's execvp argv is recorded, then control continues as the "
@@ -40,7 +41,7 @@ def main(tier, only=None):
         "concurrent invocations: reduced to non-interference (driver unlinks/creates only names from mkstemp or "
         "given on the command line — asserted); same-output races are outside",
         "death of the driver itself by a signal (atexit handlers do not run)",
-        "fork() failure (status would be read uninitialised) — not modelled",
+        "fork() failure (now reported by the driver) is not modelled",
     ]
     if want("driver"):
         hs = []
